@@ -1,1 +1,534 @@
-fn main(){}
+//! `transcript` — the shared input corpus run in ONE build configuration of ffuzzy
+//! (features forwarded from this crate's features; debug assertions by profile).
+//! It uses only API that exists in every configuration (`Display` instead of
+//! `to_string`, `Generator` instead of `hash_buf`; where easy functions exist
+//! they are also called and must equal the printed line), checks each result
+//! against the reference model, and emits one digest per section.
+//!
+//!   transcript                 -> "SECTION <name> <lines> <digest>" per section, "SELF <n>" mismatches
+//!   transcript --dump <name>   -> the raw lines of one section
+
+#![allow(deprecated)]
+#![allow(clippy::all)]
+
+#[path = "../../mc/src/corpus.rs"]
+#[allow(dead_code)]
+mod corpus;
+
+use refmodel::ctph::Ctph;
+use refmodel::text as rt;
+use ssdeep::*;
+use std::fmt::Write as _;
+
+const MAX: u64 = 192u64 << 30;
+
+struct Out {
+    sections: Vec<(String, Vec<String>)>,
+    self_mismatches: Vec<String>,
+}
+impl Out {
+    fn section(&mut self, name: &str) {
+        self.sections.push((name.to_string(), vec![]));
+    }
+    fn line(&mut self, l: String) {
+        self.sections.last_mut().unwrap().1.push(l);
+    }
+    fn bad(&mut self, l: String) {
+        if self.self_mismatches.len() < 50 {
+            self.self_mismatches.push(l);
+        }
+    }
+}
+
+fn h64(bytes: &[u8], mut h: u64) -> u64 {
+    for &b in bytes {
+        h ^= b as u64;
+        h = h.wrapping_mul(0x100000001b3);
+    }
+    h
+}
+
+fn fin(g: &Generator) -> String {
+    let a = g.finalize().map(|h| format!("{}", h)).unwrap_or_else(|e| format!("Err({:?})", e));
+    let b = g.finalize_without_truncation().map(|h| format!("{}", h)).unwrap_or_else(|e| format!("Err({:?})", e));
+    let c = g.finalize_raw::<false, 64, 32>().map(|h| format!("{}", h)).unwrap_or_else(|e| format!("Err({:?})", e));
+    format!("{}|{}|{}|{}|{}", a, b, c, g.input_size(), g.may_warn_about_small_input_size())
+}
+fn fin_ref(r: &Ctph) -> String {
+    match r.digest() {
+        Err(_) => format!("Err(InputSizeTooLarge)|Err(InputSizeTooLarge)|Err(InputSizeTooLarge)|{}|{}", r.size(), r.size() < 4097),
+        Ok(d) => {
+            let c = if d.bh2_long.len() <= 32 { d.text_long() } else { "Err(OutputOverflow)".to_string() };
+            format!("{}|{}|{}|{}|{}", d.text_trunc(), d.text_long(), c, r.size(), r.size() < 4097)
+        }
+    }
+}
+
+fn start(zp: u64, dirty: bool) -> Generator {
+    if dirty {
+        let mut g = Generator::new();
+        g.update(&corpus::repeat(&corpus::W[30], 70));
+        g.update(&[1, 2, 3]);
+        g.reset();
+        if zp != 0 {
+            g.verif_feed_zero_bytes(zp);
+        }
+        g
+    } else if zp == 0 {
+        Generator::new()
+    } else {
+        Generator::verif_new_with_prefix_zeroes(zp)
+    }
+}
+
+fn feed(g: &mut Generator, w: &[u8], form: usize) {
+    match form % 3 {
+        0 => {
+            g.update(w);
+        }
+        1 => {
+            g.update_by_iter(w.iter().copied());
+        }
+        _ => {
+            for &c in w {
+                g.update_by_byte(c);
+            }
+        }
+    }
+}
+
+fn thorough() -> bool {
+    std::env::var("MC_TIER").map(|v| v == "thorough").unwrap_or(false)
+}
+
+fn section_generator(out: &mut Out) {
+    out.section("generator");
+    let alpha = corpus::gen_alphabet();
+    let counts = [1usize, 31, 32, 33, 64, 65];
+    let zps = [0u64, 5, (192u64 << 10) - 300, (192u64 << 29) + 1 - 448, (192u64 << 30) - 448, (192u64 << 30) - 440];
+    for (zi, &zp) in zps.iter().enumerate() {
+        for dirty in [false, true] {
+            if dirty && zi % 2 == 1 && !thorough() {
+                continue;
+            }
+            for k1 in (0..alpha.len()).step_by(if zp == 0 || thorough() { 1 } else { 3 }) {
+                let w1 = &alpha[k1].1;
+                let mut g = start(zp, dirty);
+                let mut r = Ctph::new(zp);
+                let mut fed = 0usize;
+                for &c1 in &counts {
+                    while fed < c1 {
+                        feed(&mut g, w1, fed + k1);
+                        r.feed_all(w1);
+                        fed += 1;
+                    }
+                    let (a, b) = (fin(&g), fin_ref(&r));
+                    if a != b {
+                        out.bad(format!("generator zp={} dirty={} {}^{}: {} != reference {}", zp, dirty, alpha[k1].0, c1, a, b));
+                    }
+                    out.line(format!("G {} {} {}^{} {}", zp, dirty, alpha[k1].0, c1, a));
+                    // second segment, fed as ONE slice together with one more word of the first (state cached
+                    // across the loop of a single call is otherwise invisible)
+                    for k2 in [0usize, 5, 30, 31, 33] {
+                        if k2 == k1 {
+                            continue;
+                        }
+                        let mut buf: Vec<u8> = w1.clone();
+                        buf.extend(corpus::repeat(&alpha[k2].1, 33));
+                        let mut g2 = g.clone();
+                        let mut r2 = r.clone();
+                        g2.update(&buf);
+                        r2.feed_all(&buf);
+                        let (a, b) = (fin(&g2), fin_ref(&r2));
+                        if a != b {
+                            out.bad(format!("generator zp={} dirty={} {}^{} +slice {}^33: {} != reference {}", zp, dirty, alpha[k1].0, c1, alpha[k2].0, a, b));
+                        }
+                        out.line(format!("G {} {} {}^{} {}^33 {}", zp, dirty, alpha[k1].0, c1 + 1, alpha[k2].0, a));
+                    }
+                }
+            }
+        }
+    }
+    // borders with and without the correct hint
+    for n in 0..=30u32 {
+        for delta in [-1i64, 0, 1] {
+            let total = ((192u64 << n) as i64 + delta) as u64;
+            for k in [n as usize, (n as usize + 1).min(30), 30, 0] {
+                for m in [32usize, 64, 65] {
+                    if total < 7 * m as u64 {
+                        continue;
+                    }
+                    let zp = total - 7 * m as u64;
+                    for hint in [false, true] {
+                        let mut g = start(zp, false);
+                        let mut r = Ctph::new(zp);
+                        if hint {
+                            let res = g.set_fixed_input_size(total);
+                            if res.is_err() != (total > MAX) {
+                                out.bad(format!("hint {} -> {:?}", total, res));
+                            }
+                        }
+                        let buf = corpus::repeat(&corpus::W[k], m);
+                        feed(&mut g, &buf, n as usize + m);
+                        r.feed_all(&buf);
+                        let (a, b) = (fin(&g), fin_ref(&r));
+                        if a != b {
+                            out.bad(format!("border n={} delta={} W{}^{} hint={}: {} != reference {}", n, delta, k, m, hint, a, b));
+                        }
+                        out.line(format!("B {} {} W{}^{} {} {}", n, delta, k, m, hint, a));
+                    }
+                }
+            }
+        }
+    }
+    // easy functions where they exist must agree with the generator
+    #[cfg(feature = "easy-functions")]
+    {
+        for k in 0..alpha.len() {
+            let buf = corpus::repeat(&alpha[k].1, 66);
+            let e = hash_buf(&buf).map(|h| format!("{}", h)).unwrap_or_else(|e| format!("Err({:?})", e));
+            let mut g = Generator::new();
+            g.update(&buf);
+            let d = g.finalize().map(|h| format!("{}", h)).unwrap_or_else(|e| format!("Err({:?})", e));
+            if e != d {
+                out.bad(format!("hash_buf({}^66) = {} but the generator gives {}", alpha[k].0, e, d));
+            }
+        }
+    }
+    #[cfg(all(feature = "easy-functions", feature = "std"))]
+    {
+        let buf = corpus::repeat(&corpus::W[2], 5000);
+        let e = hash_stream(&mut &buf[..]).map(|h| format!("{}", h)).unwrap_or_else(|e| format!("Err({})", e));
+        let mut g = Generator::new();
+        g.update(&buf);
+        let d = format!("{}", g.finalize().unwrap());
+        if e != d {
+            out.bad(format!("hash_stream = {} but the generator gives {}", e, d));
+        }
+    }
+}
+
+fn b64s(v: &[u8]) -> Vec<u8> {
+    v.iter().map(|&x| refmodel::B64[x as usize]).collect()
+}
+
+fn texts() -> Vec<Vec<u8>> {
+    let mut texts = vec![];
+    for bs in ["3", "6144", "3221225472", "0", "03", "4", "4294967296", "", "6 "] {
+        for l1 in [0usize, 1, 5, 60, 63, 64, 65, 70] {
+            for r1 in [0usize, 3, 4, 5, 9, 60, 70] {
+                for (l2, r2) in [(0usize, 0usize), (3, 0), (31, 4), (32, 0), (33, 0), (28, 5), (28, 9), (64, 0), (60, 8), (0, 40)] {
+                    for tail in ["", ",x", ":", "@"] {
+                        if !(bs == "3" || bs == "3221225472") && !(tail.is_empty() && r1 <= 4) {
+                            continue;
+                        }
+                        let mut t = bs.as_bytes().to_vec();
+                        t.push(b':');
+                        let mut b1 = b64s(&corpus::ramp(l1, 0));
+                        b1.extend(std::iter::repeat(b'A').take(r1));
+                        t.extend(&b1);
+                        t.push(b':');
+                        let mut b2 = b64s(&corpus::ramp(l2, 9));
+                        b2.extend(std::iter::repeat(b'/').take(r2));
+                        b2.extend(b64s(&corpus::ramp(l2.min(2), 30)));
+                        t.extend(&b2);
+                        t.extend(tail.as_bytes());
+                        texts.push(t);
+                    }
+                }
+            }
+        }
+    }
+    for s in ["3", "", ":", "3:", "3:A", "3:A:", "3::", "3:::", "3::,", "3:A,B:C", "3:\u{e9}:"] {
+        texts.push(s.as_bytes().to_vec());
+    }
+    texts.sort();
+    texts.dedup();
+    texts
+}
+
+/// raw block hash lengths of a text, when it has the grammar's shape
+fn raw_lengths(t: &[u8]) -> Option<(usize, usize)> {
+    let c1 = t.iter().position(|&c| c == b':')?;
+    let rest = &t[c1 + 1..];
+    let n1 = rest.iter().take_while(|&&c| refmodel::b64_index(c).is_some()).count();
+    if rest.get(n1) != Some(&b':') {
+        return Some((n1, 0));
+    }
+    let rest2 = &rest[n1 + 1..];
+    let n2 = rest2.iter().take_while(|&&c| refmodel::b64_index(c).is_some()).count();
+    Some((n1, n2))
+}
+
+fn section_parser(out: &mut Out) {
+    out.section("parser");
+    const STRICT: bool = cfg!(feature = "strict-parser");
+    macro_rules! parse_line {
+        ($ty:ty, $name:expr, $cap2:expr, $norm:expr, $dual:expr, $t:expr, $tag:expr) => {{
+            let t: &[u8] = $t;
+            let mut idx = 7777usize;
+            let r = <$ty>::from_bytes_with_last_index(t, &mut idx);
+            let r2 = <$ty>::from_bytes(t);
+            let rule = rt::Rule { cap1: 64, cap2: $cap2, count_normalized: $norm && !$dual && !STRICT, strict: STRICT };
+            let exp = rt::parse(t, rule);
+            let line = match &r {
+                Ok(h) => format!("P {} {} {} Ok {:?} {}", $tag, $name, hexs(t), h, idx),
+                Err(e) => format!("P {} {} {} Err {:?} {:?} {} {}", $tag, $name, hexs(t), e.origin(), e.kind(), e.offset(), idx),
+            };
+            if r.is_ok() != exp.is_ok() || r.is_ok() != r2.is_ok() {
+                out.bad(format!("parse {} {}: accepted={} reference accepts={}", $name, String::from_utf8_lossy(t), r.is_ok(), exp.is_ok()));
+            }
+            out.line(line);
+        }};
+    }
+    for t in texts() {
+        let (n1, n2) = raw_lengths(&t).unwrap_or((0, 0));
+        // tag: which capacities the raw text exceeds
+        let tag = format!("OVF{}{}{}", if n1 > 64 { "1" } else { "-" }, if n2 > 32 { "s" } else { "-" }, if n2 > 64 { "l" } else { "-" });
+        parse_line!(RawFuzzyHash, "Raw", 32, false, false, &t[..], tag);
+        parse_line!(LongRawFuzzyHash, "LongRaw", 64, false, false, &t[..], tag);
+        parse_line!(FuzzyHash, "Norm", 32, true, false, &t[..], tag);
+        parse_line!(LongFuzzyHash, "LongNorm", 64, true, false, &t[..], tag);
+        parse_line!(DualFuzzyHash, "Dual", 32, false, true, &t[..], tag);
+        parse_line!(LongDualFuzzyHash, "LongDual", 64, false, true, &t[..], tag);
+    }
+}
+
+fn hexs(b: &[u8]) -> String {
+    let mut s = String::new();
+    for &c in b {
+        if (0x21..0x7f).contains(&c) && c != b'%' {
+            s.push(c as char);
+        } else {
+            let _ = write!(s, "%{:02x}", c);
+        }
+    }
+    s
+}
+
+fn contents() -> Vec<(u8, Vec<u8>, Vec<u8>)> {
+    let mut v = vec![];
+    let fam1 = corpus::bh_family(64, false);
+    let small = corpus::small_set();
+    let t = thorough();
+    for (i, a) in fam1.iter().enumerate().step_by(if t { 1 } else { 7 }) {
+        v.push((((i * 5) % 31) as u8, a.clone(), small[i % small.len()].clone()));
+    }
+    let fam2 = corpus::bh_family(32, false);
+    for (i, b) in fam2.iter().enumerate().step_by(if t { 1 } else { 5 }) {
+        v.push((((i * 3) % 31) as u8, small[i % small.len()].clone(), b.clone()));
+    }
+    for (i, b) in fam1.iter().enumerate().step_by(if t { 3 } else { 41 }) {
+        v.push((30, small[i % small.len()].clone(), b.clone()));
+    }
+    v
+}
+
+fn section_conversions(out: &mut Out) {
+    out.section("conversions");
+    for (log, a, b) in contents() {
+        let long = LongRawFuzzyHash::new_from_internals_near_raw(log, &a, &b);
+        let ln = long.normalize();
+        let mut in_place = long;
+        in_place.normalize_in_place();
+        let dual = LongDualFuzzyHash::from_raw_form(&long);
+        let back = dual.to_raw_form();
+        let mut dirty = LongRawFuzzyHash::new_from_internals_near_raw(30, &[63; 64], &[63; 64]);
+        dual.into_mut_raw_form(&mut dirty);
+        let mut buf = [0u8; MAX_LEN_IN_STR + 4];
+        let n = long.store_into_bytes(&mut buf).unwrap_or(9999);
+        let exp_raw = rt::format(log, &a, &b);
+        let exp_norm = rt::format(log, &refmodel::normalize(&a), &refmodel::normalize(&b));
+        let line = format!(
+            "V {} | {} | {} | {} | {} | {} | {:?} | {} {} {} | {}",
+            long, ln, in_place, dual, back, dirty, dual, ln.is_valid(), dual.is_valid(), back.full_eq(&long) && dirty.full_eq(&long), n
+        );
+        if format!("{}", long) != exp_raw || format!("{}", ln) != exp_norm || format!("{}", back) != exp_raw || format!("{}", in_place) != exp_norm || !dual.is_valid() {
+            out.bad(format!("conversion of {}: {}", exp_raw, line));
+        }
+        out.line(line);
+        if b.len() <= 32 {
+            let short = RawFuzzyHash::new_from_internals_near_raw(log, &a, &b);
+            let sn = FuzzyHash::from(short);
+            let sd = DualFuzzyHash::from_raw_form(&short);
+            let mut wide = LongFuzzyHash::from_raw_form(&LongRawFuzzyHash::new_from_internals_near_raw(30, &[63; 64], &[63; 64]));
+            sn.into_mut_long_form(&mut wide);
+            let narrowed: Result<RawFuzzyHash, _> = RawFuzzyHash::try_from(long);
+            let reparsed: Result<FuzzyHash, _> = FuzzyHash::from_bytes(exp_raw.as_bytes());
+            let line = format!(
+                "W {} | {} | {} | {} | {:?} | {:?} | {} {}",
+                short, sn, sd.to_raw_form(), wide, narrowed.map(|h| format!("{}", h)), reparsed.as_ref().map(|h| format!("{}", h)).map_err(|e| e.kind()),
+                wide.is_valid(), sd.is_valid()
+            );
+            if format!("{}", sn) != exp_norm || !wide.is_valid() || format!("{}", wide) != exp_norm {
+                out.bad(format!("short conversion of {}: {}", exp_raw, line));
+            }
+            out.line(line);
+        } else {
+            let narrowed: Result<RawFuzzyHash, _> = RawFuzzyHash::try_from(long);
+            out.line(format!("N {} {:?}", long, narrowed.map(|h| format!("{}", h))));
+        }
+        // ordering / equality / hashing of the produced objects is part of the results
+        let other = LongRawFuzzyHash::new_from_internals_near_raw(log, &b[..b.len().min(64)], &a[..a.len().min(64)]);
+        out.line(format!("O {:?} {} {:?}", long.cmp(&other), long == other, dual.cmp(&LongDualFuzzyHash::from_raw_form(&other))));
+    }
+}
+
+fn section_scores(out: &mut Out) {
+    out.section("scores");
+    let x = corpus::ramp(40, 0);
+    let mut x1 = x.clone();
+    x1[20] = 0;
+    let y = corpus::ramp(20, 7);
+    let mut y1 = y.clone();
+    y1.insert(3, 63);
+    let tpl: Vec<(Vec<u8>, Vec<u8>, Vec<u8>, Vec<u8>)> = vec![
+        (x.clone(), y.clone(), x1.clone(), x.clone()),
+        (x.clone(), y.clone(), x.clone(), y.clone()),
+        (y.clone(), x.clone(), y1.clone(), x1.clone()),
+        (corpus::ramp(7, 0), vec![], corpus::ramp(8, 0), vec![]),
+        (x.clone(), y.clone(), corpus::ramp(12, 50), corpus::ramp(9, 44)),
+    ];
+    for la in 0..31u8 {
+        for lb in 0..31u8 {
+            for (k, t) in tpl.iter().enumerate() {
+                let a = LongFuzzyHash::new_from_internals_near_raw(la, &t.0, &t.1);
+                let b = LongFuzzyHash::new_from_internals_near_raw(lb, &t.2, &t.3);
+                let tg = FuzzyHashCompareTarget::from(&a);
+                let mut tg2 = FuzzyHashCompareTarget::from(&b);
+                tg2.init_from(&a);
+                let s1 = a.compare(&b);
+                let s2 = tg.compare(&b);
+                let s3 = tg2.compare(&b);
+                let cand = tg.is_comparison_candidate(&b);
+                let w: Vec<u64> = a.block_hash_1_index_windows().take(2).chain(a.block_hash_2_index_windows().take(1)).collect();
+                let exp = refmodel::score(la, &t.0, &t.1, lb, &t.2, &t.3);
+                if s1 != exp || s2 != exp || s3 != exp {
+                    out.bad(format!("score la={} lb={} template {}: {} {} {} != reference {}", la, lb, k, s1, s2, s3, exp));
+                }
+                #[cfg(feature = "easy-functions")]
+                {
+                    let ta = format!("{}", a);
+                    let tb = format!("{}", b);
+                    let e = compare(&ta, &tb);
+                    if e.as_ref().ok() != Some(&s1) {
+                        out.bad(format!("ssdeep::compare({}, {}) = {:?} but objects give {}", ta, tb, e, s1));
+                    }
+                }
+                #[cfg(feature = "unchecked")]
+                {
+                    // unchecked twins on in-contract arguments must agree with the checked entry points
+                    if !tg.is_equiv(&b) {
+                        let u = unsafe { tg.compare_unequal_unchecked(&b) };
+                        if u != s2 {
+                            out.bad(format!("compare_unequal_unchecked = {} but compare = {}", u, s2));
+                        }
+                        if a != b {
+                            let u2 = unsafe { a.compare_unequal_unchecked(&b) };
+                            if u2 != s1 {
+                                out.bad(format!("hash compare_unequal_unchecked = {} but compare = {}", u2, s1));
+                            }
+                        }
+                    }
+                    if la == lb {
+                        let u = unsafe { tg.compare_near_eq_unchecked(&b) };
+                        let c = unsafe { tg.is_comparison_candidate_near_eq_unchecked(&b) };
+                        if u != s2 || c != cand {
+                            out.bad(format!("near_eq unchecked twins disagree: {} {} vs {} {}", u, c, s2, cand));
+                        }
+                    }
+                }
+                out.line(format!("S {} {} {} {} {} {} {} {:?}", la, lb, k, s1, s2, s3, cand, w));
+            }
+        }
+    }
+    #[cfg(feature = "unchecked")]
+    {
+        for log in 0..31u8 {
+            let bs = unsafe { block_size::from_log_unchecked(log) };
+            let l = unsafe { block_size::log_from_valid_unchecked(bs) };
+            if Some(bs) != block_size::from_log(log) || l != log {
+                out.bad(format!("block size unchecked twins disagree at log {}", log));
+            }
+        }
+        for (log, a, b) in contents().into_iter().take(300) {
+            let c = LongRawFuzzyHash::new_from_internals_near_raw(log, &a, &b);
+            let u = unsafe { LongRawFuzzyHash::new_from_internals_near_raw_unchecked(log, &a, &b) };
+            let u2 = unsafe { LongRawFuzzyHash::new_from_internals_unchecked(3u32 << log, &a, &b) };
+            let d = LongDualFuzzyHash::new_from_internals_near_raw(log, &a, &b);
+            let du = unsafe { LongDualFuzzyHash::new_from_internals_near_raw_unchecked(log, &a, &b) };
+            if !c.full_eq(&u) || !c.full_eq(&u2) || d != du {
+                out.bad(format!("unchecked constructors disagree for {}", c));
+            }
+            let ln = c.normalize();
+            let s = unsafe { FuzzyHashCompareTarget::raw_score_by_edit_distance_unchecked(10, 12, 4) };
+            if s != FuzzyHashCompareTarget::raw_score_by_edit_distance(10, 12, 4) {
+                out.bad("raw_score unchecked twin".to_string());
+            }
+            let _ = ln;
+        }
+    }
+}
+
+fn section_primitives(out: &mut Out) {
+    use ssdeep::internal_hashes::{PartialFNVHash, RollingHash};
+    out.section("primitives");
+    let mut strings: Vec<Vec<u8>> = vec![vec![], vec![0], vec![255; 20], (0..=255u8).collect()];
+    for k in 0..31 {
+        strings.push(corpus::repeat(&corpus::W[k], 3));
+    }
+    for s in strings {
+        let mut f = PartialFNVHash::new();
+        let mut r = RollingHash::new();
+        let mut line = String::new();
+        for (i, &c) in s.iter().enumerate() {
+            f.update_by_byte(c);
+            r.update_by_byte(c);
+            if f.value() != refmodel::fnv6(&s[..=i]) || r.value() != refmodel::roll(&s[..=i]) {
+                out.bad(format!("primitive after {} bytes", i + 1));
+            }
+            let _ = write!(line, "{:02x}{:08x}", f.value(), r.value());
+        }
+        let mut f2 = PartialFNVHash::new();
+        f2.update(&s);
+        let mut r2 = RollingHash::new();
+        r2.update_by_iter(s.iter().copied());
+        out.line(format!("H {} {} {} {}", s.len(), f2.value(), r2.value(), line));
+    }
+}
+
+fn main() {
+    let args: Vec<String> = std::env::args().skip(1).collect();
+    let mut out = Out { sections: vec![], self_mismatches: vec![] };
+    if let Err(e) = corpus::validate_words() {
+        eprintln!("transcript: corpus validation failed: {}", e);
+        std::process::exit(3);
+    }
+    section_generator(&mut out);
+    section_parser(&mut out);
+    section_conversions(&mut out);
+    section_scores(&mut out);
+    section_primitives(&mut out);
+    if args.len() == 2 && args[0] == "--dump" {
+        for (name, lines) in &out.sections {
+            if name == &args[1] {
+                for l in lines {
+                    println!("{}", l);
+                }
+            }
+        }
+        return;
+    }
+    for (name, lines) in &out.sections {
+        let mut h = 0xcbf29ce484222325u64;
+        for l in lines {
+            h = h64(l.as_bytes(), h);
+            h = h64(b"\n", h);
+        }
+        println!("SECTION {} {} {:016x}", name, lines.len(), h);
+    }
+    println!("SELF {}", out.self_mismatches.len());
+    for m in &out.self_mismatches {
+        println!("SELFMISMATCH {}", m);
+    }
+}
